@@ -468,6 +468,37 @@ def ibtp_request_prog(ids, index, frm="1356:chainA:svc1", to="1356:chainB:svc1",
     return ("touch", ic, ("touch", CID["servicemgr"], ("cross", tm, ("raw", k_tx, "OBS", ("done",)), rest, rest)))
 
 
+# name service (BNS): ServiceRegistry.Register / Renew charge price = rate(len(name)) * duration * 1e8 (uint64 arithmetic,
+# token price 1) to the CALLER through SubBalance - the amount leaves the books (it is credited to nobody)
+BNS_NOW = 1700000000
+BNS_GRACE = 90 * 24 * 60 * 60
+M64 = 2**64
+
+
+def bns_cost(name, duration):
+    rate = {1: 1, 2: 2, 3: 3, 4: 4}.get(len(name), 5)
+    return (((rate * duration) % M64) * 10**8) % M64
+
+
+def op_bns(frm, method, name, duration, bal, registered_until=None, full=None):
+    """Register(name, duration, resolver) / Renew(full name, duration) by an account holding [bal] at the start of the
+    transaction; registered_until: expiry of the name if it is registered.  Body on success: the caller's balance
+    becomes bal - cost (burn = cost), nothing is credited to anybody."""
+    wraps = (BNS_NOW + duration + BNS_GRACE) % M64 < BNS_NOW + BNS_GRACE or BNS_NOW + duration + BNS_GRACE >= M64
+    if method == "Register":
+        cost = bns_cost(name, duration)
+        ok = name != "" and duration != 0 and (registered_until is None or registered_until + BNS_GRACE <= BNS_NOW) and not wraps and (bal % M64) >= cost
+        args = [["s", name], ["u64", str(duration)], ["sa", "c:svcresolver"]]
+    else:
+        cost = bns_cost(full, duration)
+        ok = full != "" and duration != 0 and registered_until is not None and registered_until + BNS_GRACE >= BNS_NOW and not wraps and (bal % M64) >= cost
+        args = [["s", full], ["u64", str(duration)]]
+    reg = CID["svcregistry"]
+    prog = ("touch", reg, ("setbal", acct_id(frm), bal - cost, ("done",))) if ok else ("touch", reg, ("fail", False))
+    return dict(tx={"t": "bvm", "from": frm, "to": "c:svcregistry", "m": method, "args": args, "ts": BNS_NOW * 10**9}, frm=frm, body=("bvm", prog),
+                invalid=False, tag="bns_%s_%s" % (method.lower(), "ok" if ok else "refused"), opaque=True, burn=cost if ok else 0)
+
+
 # the two plugin contracts of harness/execframe/plugins.go (history cfg "plugins": true)
 EMITTER, RELAY = "x:0x00000000000000000000000000000000c07e0001", "x:0x00000000000000000000000000000000c07e0002"
 
@@ -594,7 +625,7 @@ def gcbody2(b):
 
 
 OPAQUE_CONTRACTS = {"c:interchain", "c:txmgr", "c:servicemgr", "c:interbroker", "c:governance", "c:role", "c:strategy",
-                    "c:appchain", "c:rule", "c:node", "c:dapp"}
+                    "c:appchain", "c:rule", "c:node", "c:dapp", "c:svcregistry", "c:svcresolver"}
 
 
 class Run:
